@@ -165,13 +165,20 @@ func (i Identifier) File() *File {
 
 // Type returns the type of the identifier.
 func (i Identifier) Type() IType {
-	mu.Lock()
-	defer mu.Unlock()
-	o, err := i.live()
-	if err != nil || o.typ == proplistType {
-		return BAD_ID
-	}
-	return o.typ
+	typ := BAD_ID
+	traced(callInfo{"Identifier.Type", classRead, i.traceFile(), i.tracePath()}, func() error {
+		mu.Lock()
+		defer mu.Unlock()
+		o, err := i.live()
+		if err != nil {
+			return err
+		}
+		if o.typ != proplistType {
+			typ = o.typ
+		}
+		return nil
+	})
+	return typ
 }
 
 // closeFileBound closes a file, group or dataset handle.
